@@ -190,6 +190,34 @@ func HVars() *Harness {
 				if err != nil {
 					panic(fmt.Sprintf("shape %s: %v", sh.Name, err))
 				}
+				out = append(out, Instance{Name: "translator-validation:" + sh.Name + "," + dest, Run: func(ic *IC) *exec.Stats {
+					// the engine in concrete mode against the real CLI on the same input
+					fn := env.Repo.Method(pkgMoq, "Mocker", "methodData")
+					concrete := map[string]string{"name_a": "alpha", "name_b": "beta", "name_c": "gamma", "name_d": "delta", "name_P": "pone", "name_Q": "qtwo", "name_L": "Lt", "name_M": "Mt"}
+					var engineNames []string
+					st := ic.Explore(func(ex *exec.Exec) {
+						ex.User["concrete"] = concrete
+						ex.User["collectNames"] = &engineNames
+						runVars(ic, ex, env, fn, sh, pkgs, bound, dest)
+					})
+					_, tr, err := env.varsObserve(sh, concrete, dest)
+					real := ""
+					if i := strings.Index(tr, "identifiers of M: ["); i >= 0 {
+						real = tr[i+len("identifiers of M: ["):]
+						real = real[:strings.Index(real, "]")]
+					}
+					if err == nil && real == strings.Join(engineNames, " ") && real != "" {
+						ic.mu.Lock()
+						ic.Validated++
+						ic.Samples = append(ic.Samples, map[string]any{"harness": "H.vars", "translator_validation": sh.Sig, "dest": dest, "engine_names": engineNames, "real_cli_names": real})
+						ic.mu.Unlock()
+					} else {
+						ic.mu.Lock()
+						ic.Inconcl = append(ic.Inconcl, fmt.Sprintf("translator validation failed for %s,%s: engine %v vs real CLI [%s] (%v)", sh.Name, dest, engineNames, real, err))
+						ic.mu.Unlock()
+					}
+					return st
+				}})
 				out = append(out, Instance{Name: sh.Name + "," + dest, Run: func(ic *IC) *exec.Stats {
 					ic.StrBound = bound
 					ic.MaxDepth = 40
@@ -328,6 +356,12 @@ func runVars(ic *IC, ex *exec.Exec, env *Env, fn exec.Value, sh varShape, pkgs m
 	var names []*smt.Term
 	for _, p := range all {
 		names = append(names, p.Name)
+	}
+	if sink, ok := ex.User["collectNames"].(*[]string); ok {
+		for _, n := range names {
+			s, _ := exec.ConstStr(n)
+			*sink = append(*sink, s)
+		}
 	}
 	var conds []*smt.Term
 	var labels []string
